@@ -598,6 +598,16 @@ func typedRewrites(fset *token.FileSet, f *ast.File, info *types.Info, ed *edito
 					default:
 						report.ChanOps = append(report.ChanOps, where(x)+" sync.Wait")
 					}
+				case "Get":
+					if strings.Contains(recvTypeName(sel), "sync.Pool") && len(x.Args) == 0 {
+						report.SyncSites = append(report.SyncSites, where(x)+" Pool.Get")
+						ed.replace(off(x.Pos()), off(x.End()), rtImportName+".PoolGet("+syncKey(sel)+")")
+					}
+				case "Put":
+					if strings.Contains(recvTypeName(sel), "sync.Pool") && len(x.Args) == 1 {
+						report.SyncSites = append(report.SyncSites, where(x)+" Pool.Put")
+						ed.replace(off(x.Pos()), off(x.Lparen)+1, rtImportName+".PoolPut("+syncKey(sel)+", ")
+					}
 				case "Add":
 					if strings.Contains(recvTypeName(sel), "WaitGroup") && len(x.Args) == 1 {
 						report.SyncSites = append(report.SyncSites, where(x)+" WaitGroup.Add")
@@ -1055,6 +1065,10 @@ func writeRuntime(root string) {
 	if err := ioutil.WriteFile(filepath.Join(dir, "rt.go"), []byte(runtimeSrc), 0644); err != nil {
 		fatalf("%v", err)
 	}
+	raceOn := "//go:build verif && race\n\npackage zzverifrt\n\nimport (\n\t\"runtime\"\n\t\"unsafe\"\n)\n\nfunc raceAcquire(p unsafe.Pointer)      { runtime.RaceAcquire(p) }\nfunc raceReleaseMerge(p unsafe.Pointer) { runtime.RaceReleaseMerge(p) }\n"
+	raceOff := "//go:build verif && !race\n\npackage zzverifrt\n\nimport \"unsafe\"\n\nfunc raceAcquire(p unsafe.Pointer)      {}\nfunc raceReleaseMerge(p unsafe.Pointer) {}\n"
+	ioutil.WriteFile(filepath.Join(dir, "race_on.go"), []byte(raceOn), 0644)
+	ioutil.WriteFile(filepath.Join(dir, "race_off.go"), []byte(raceOff), 0644)
 }
 
 const runtimeSrc = `//go:build verif
@@ -1072,6 +1086,7 @@ import (
 	"sort"
 	"sync"
 	"sync/atomic"
+	"unsafe"
 )
 
 // Hook is called before every statement of the instrumented packages.
@@ -1169,6 +1184,103 @@ func Recv2(ch interface{}) (interface{}, bool) {
 }
 
 func RecvWait(ch interface{}) { Recv2(ch) }
+
+// ---- deterministic sync.Pool -------------------------------------------------------
+// sync.Pool hands out "some" object: which one depends on the P the goroutine runs on and
+// on GC timing, and under -race Put drops a quarter of the objects at random. Under the
+// harness a pool is a plain LIFO stack per *sync.Pool (never dropping), so that a run is
+// a function of its seed, and misuse (double Put, use after Put) shows deterministically.
+// The happens-before edge real pools give (Put of x before the Get that returns x) is
+// reproduced with race annotations on x itself, and nothing more.
+
+type poolEnt struct {
+	p     *sync.Pool
+	items [64]interface{}
+	n     int
+}
+
+var poolTab [32]poolEnt
+
+//go:norace
+func poolPush(p *sync.Pool, x interface{}) {
+	free := -1
+	for i := range poolTab {
+		if poolTab[i].p == p {
+			if poolTab[i].n < len(poolTab[i].items) {
+				poolTab[i].items[poolTab[i].n] = x
+				poolTab[i].n++
+			}
+			return
+		}
+		if poolTab[i].p == nil && free < 0 {
+			free = i
+		}
+	}
+	if free >= 0 {
+		poolTab[free].p = p
+		poolTab[free].items[0] = x
+		poolTab[free].n = 1
+	}
+}
+
+//go:norace
+func poolPop(p *sync.Pool) (interface{}, bool) {
+	for i := range poolTab {
+		if poolTab[i].p == p && poolTab[i].n > 0 {
+			poolTab[i].n--
+			x := poolTab[i].items[poolTab[i].n]
+			poolTab[i].items[poolTab[i].n] = nil
+			return x, true
+		}
+	}
+	return nil, false
+}
+
+//go:norace
+func poolReset() { poolTab = [32]poolEnt{} }
+
+func detPool() bool { return Hook != nil && atomic.LoadInt32(&realSpawned) == 0 }
+
+func objAddr(x interface{}) unsafe.Pointer {
+	rv := reflect.ValueOf(x)
+	switch rv.Kind() {
+	case reflect.Ptr, reflect.Map, reflect.Slice, reflect.Chan, reflect.Func, reflect.UnsafePointer:
+		return unsafe.Pointer(rv.Pointer())
+	}
+	return nil
+}
+
+// PoolGet replaces p.Get().
+func PoolGet(p *sync.Pool) interface{} {
+	if !detPool() {
+		return p.Get()
+	}
+	if x, ok := poolPop(p); ok {
+		if a := objAddr(x); a != nil {
+			raceAcquire(a)
+		}
+		return x
+	}
+	if p.New != nil {
+		return p.New()
+	}
+	return nil
+}
+
+// PoolPut replaces p.Put(x).
+func PoolPut(p *sync.Pool, x interface{}) {
+	if !detPool() {
+		p.Put(x)
+		return
+	}
+	if x == nil {
+		return
+	}
+	if a := objAddr(x); a != nil {
+		raceReleaseMerge(a)
+	}
+	poolPush(p, x)
+}
 
 type wgEnt struct {
 	p *sync.WaitGroup
@@ -1274,6 +1386,7 @@ func RegisterReset(f func()) { resets = append(resets, f) }
 // ResetAll returns every instrumented package to its freshly initialised state.
 func ResetAll() {
 	wgReset()
+	poolReset()
 	for _, f := range resets {
 		f()
 	}
